@@ -441,3 +441,20 @@ func verifC03g() { // a value group decorated at two levels: an outer decorator 
 }
 
 func init() { verifEntries["verifC03g"] = verifC03g }
+
+func verifC16h() { // a scope created when its parent's graph already holds several nodes, then registrations on both sides
+	verifC16run(&vProfile{name: "C16h", clauses: []string{"C16."},
+		maxScopes: 2, nRegs: 4, maxParams: 1, maxResults: 1, pForms: 2, rForms: 1, names: 1, groups: true, objOnly: true, noPerm: true,
+		regParams: []int{2, 0, 1, 1}, regScopes: []int{0, 1, 0, 1}, faults: 1, nInvokes: 1, invParams: 0, twoSided: true})
+}
+
+func verifC05si() { // the same skeleton under the cycle clauses (no false cycle, no missed cycle)
+	verifRunProfile(&vProfile{name: "C05si", clauses: vC05s,
+		maxScopes: 2, nRegs: 4, maxParams: 1, maxResults: 1, pForms: 2, rForms: 1, names: 1, groups: true, objOnly: true,
+		regParams: []int{2, 0, 1, 1}, regScopes: []int{0, 1, 0, 1}, faults: 1, nInvokes: 1, invParams: 0, distinct: true})
+}
+
+func init() {
+	verifEntries["verifC16h"] = verifC16h
+	verifEntries["verifC05si"] = verifC05si
+}
